@@ -198,6 +198,7 @@ if __name__ == "__main__":
         "mocknet streams ignore deadlines and have no scopes: the relay's streams are wrapped by the harness (deadline-honouring Read, real rcmgr stream scope opened/closed like the swarm does, WithNoDial honoured); yamux/QUIC stream deadlines themselves are not exercised",
         "a half-closed circuit whose remaining direction flows TOWARDS an endpoint that reset/disconnected is kept by the code until the next write or the deadline (the relay only notices on the side it reads from); the model tears it down at once and the generator never produces that state (safeToDrop)",
         "cryptography (record.Seal / ConsumeEnvelope) enters through the correspondence only: every granted voucher is verified with the real code against the relay's key; the model states the fields",
+        "limited connections: the relay host may also hold a LIMITED (relayed) connection to a peer (connection index 2; faked by the harness at the Network().Connectedness level, which the relay's notifiee and handleReserve consult): Connectedness is then Limited when no direct connection is left, disconnected() must still drop the reservation and handleReserve must refuse; requests are never sent over the fake connection, and the connection manager does not see it (with a real limited connection the connmgr would keep the peer, and since disconnected() does not untag, the 'relay-reservation' tag would probably survive the reservation: not exercised)",
         "concurrency: half of the random histories end with a batch of 2-5 RESERVE/CONNECT requests launched at once (racing on r.mx, the counters and the constraints); the interleaving is the scheduler's, so the batch is judged at quiescence by the monitor only (caps, lifecycle, CONNECT conditions incl. MaxCircuits at quiescence, counters/tags/memory, limits), not replayed on the model",
         "hypotheses of the theorems: 0 <= ReservationTTL and 0 <= caps only ; the headline c11_monitor_accepts_model additionally needs peers among 1..n and a monotone clock with >= 1 ms per operation, checked on every recorded event (ev_okb) (the one-address and no-race hypotheses of the first round are gone with the fixes 648cd92 and 6afff63 in /repo; their former counterexamples are corpus cases: directed histories (a),(b),(d) of the harness and corpus_*_fixed in Properties.v)",
     ]
